@@ -5,7 +5,7 @@ from typing import List
 from pydbml.classes import Reference, Column
 from pydbml.exceptions import TableNotFoundError, DBMLError
 from pydbml.renderer.dbml.default.renderer import DefaultDBMLRenderer
-from pydbml.renderer.dbml.default.utils import comment_to_dbml
+from pydbml.renderer.dbml.default.utils import comment_to_dbml, name_to_dbml
 from .table import get_full_name_for_dbml
 
 
@@ -46,7 +46,7 @@ def render_not_inline_reference(model: Reference) -> str:
     result = comment_to_dbml(model.comment) if model.comment else ''
     result += 'Ref'
     if model.name:
-        result += f' {model.name}'
+        result += f' {name_to_dbml(model.name)}'
 
     result += (
         ' {\n    '  # type: ignore
